@@ -45,7 +45,7 @@ func forEachKVCase(thorough bool, fn func(d caseDesc)) {
 	})
 	// (2) every assignment of the keys of the reduced alphabet to {absent, file0, file1, file2} (4^7) - quick;
 	//     thorough: every assignment of the full alphabet to {absent, file0, file1} (3^12) as well
-	enumAssign := func(alpha []int, files int) {
+	enumAssign := func(alpha []int, files int, light bool) {
 		venum.Sequences(files+1, len(alpha), func(seq []int) bool {
 			var mask uint64
 			type ka struct{ idx, a int }
@@ -71,17 +71,17 @@ func forEachKVCase(thorough bool, fn func(d caseDesc)) {
 			for _, p := range present {
 				as[m.idx[alphabet[p.idx]]] = p.a
 			}
-			fn(caseDesc{Part: "kv", Kind: "subset", Mask: mask, Assign: as})
+			fn(caseDesc{Part: "kv", Kind: "subset", Mask: mask, Assign: as, Light: light})
 			return true
 		})
 	}
-	enumAssign(kvAlpha3, 3)
+	enumAssign(kvAlpha3, 3, false)
 	if thorough {
 		all := make([]int, len(alphabet))
 		for i := range all {
 			all[i] = i
 		}
-		enumAssign(all, 2)
+		enumAssign(all, 2, true) // 523k cases: pair-set oracle only (the query oracle on several tries runs on the families above)
 	}
 	// (3) the large sets, 2- and 3-way
 	for _, d := range largeCases(thorough) {
@@ -239,7 +239,7 @@ func runKV(f *vevid.Flags, rep *vevid.Report, descs []caseDesc, dirName string, 
 					ck.bad("load", "IndexKVReader.GetBucket", "bucket id %d not found in the family", i+1)
 					return
 				}
-				ck.checkBucket(b, probeSet(wm, fewBytes), light)
+				ck.checkBucket(b, probeSet(wm, fewBytes), light || c.desc.Light)
 				b.Release()
 			}()
 			rep.Evaluations++
